@@ -73,6 +73,8 @@ def classify_arg(a, binders, querier_ok):
 
 def fall_of(body):
     b = squash(body)
+    while b.startswith("{") and match_close(b, 0) == len(b) - 1:
+        b = b[1:-1].strip().rstrip(";")
     for name in ("bail", "unimplemented", "unreachable", "panic"):
         if re.fullmatch(name + r"!\(.*\)", b):
             return name
@@ -80,13 +82,42 @@ def fall_of(body):
 
 
 def split_arms(block):
-    """`PAT => BODY` pieces of a match block. Returns None if some piece has no `=>`."""
+    """`PAT => BODY` pieces of a match block. An arm ends at the comma after its body or — when the body is a block
+    `{ … }` — at the closing brace (rustfmt writes no comma there). Returns None if some piece has no `=>`."""
     arms = []
-    for piece in split_top(block):
-        feature, rest = parse_attrs(piece)
-        if "=>" not in rest:
-            return None
-        pat, body = rest.split("=>", 1)
+    i, n = 0, len(block)
+    while i < n:
+        # skip whitespace and separating commas
+        while i < n and (block[i].isspace() or block[i] == ","):
+            i += 1
+        if i >= n:
+            break
+        k = block.find("=>", i)
+        if k < 0:
+            return None if block[i:].strip() else arms
+        head = block[i:k]
+        j = k + 2
+        while j < n and block[j].isspace():
+            j += 1
+        if j < n and block[j] == "{":
+            c = match_close(block, j)
+            if c < 0:
+                return None
+            body, i = block[j:c + 1], c + 1
+        else:
+            # up to the next comma outside brackets
+            depth, e = 0, j
+            while e < n:
+                ch = block[e]
+                if ch in "([{":
+                    depth += 1
+                elif ch in ")]}":
+                    depth -= 1
+                elif ch == "," and depth == 0:
+                    break
+                e += 1
+            body, i = block[j:e], e + 1
+        feature, pat = parse_attrs(head)
         arms.append((feature, pat.strip(), body.strip()))
     return arms
 
@@ -139,6 +170,8 @@ def read_router_fn(fn, enum, msg_param, allow_querier):
         arm = {"variant": kind, "feature": feature, "binders": len(binders), "recv": "other", "method": "other",
                "args": [], "direct": False, "text": squash(pat + " => " + body)}
         b = squash(body)
+        while b.startswith("{") and match_close(b, 0) == len(b) - 1:      # `=> { call(..) }`: a block holding one expression
+            b = b[1:-1].strip()
         m = re.match(r"self\.(%s)\.(%s)\(" % (C.IDENT, C.IDENT), b)
         if m:
             arm["recv"] = m.group(1) if m.group(1) in MODS else "other"
